@@ -235,6 +235,19 @@ def validate_traces(module, cfg, records, workdir, shards=16, timeout=3600, env=
     return n - len(set(b['idx'] for b in bads)), bads, states, trans
 
 
+def must_reject(module, cfg, records, workdir, what):
+    """Binding self-test: every record of this (deliberately corrupted) list must be rejected by the trace specification."""
+    if not records:
+        return 0
+    ok, bads, st, tr = validate_traces(module, cfg, records, workdir, shards=1, tag='neg')
+    rejected = set(b['idx'] for b in bads)
+    missing = [i for i in range(len(records)) if i not in rejected]
+    if missing:
+        raise MachineryError('%s: corrupted record %d (%s) was ACCEPTED by %s -- the binding is vacuous'
+                             % (what, missing[0], records[missing[0]].get('ev'), module))
+    return len(records)
+
+
 def sany(path):
     p = subprocess.run(['java', '-cp', JAR, 'tla2sany.SANY', os.path.basename(path)],
                        cwd=os.path.dirname(path), stdout=subprocess.PIPE, stderr=subprocess.STDOUT, text=True)
